@@ -31,6 +31,9 @@ namespace sim
    template<> struct io_input< 10 > { using type = io_buf_eol< pegtl::eol::cr_crlf >; };
    template<> struct io_input< 11 > { using type = io_buf_eol< pegtl::eol::lf >; };
 
+   // programs 9 / 10 (tracer): compares what the tracer printed, and the state it is left in, with the recorded history
+   void tracer_check( const std::string& printed, std::size_t stack_size, std::size_t count, bool complete, const Snap& at );
+
    // defined in io_unit.cpp, one explicit specialisation per ( program, input type )
    template< int Prog, typename In >
    bool io_parse( In& in, sim_state& root );
@@ -76,5 +79,13 @@ namespace sim
    SIM_IO_DECL( 8, 1 )
    SIM_IO_DECL( 8, 2 )
    SIM_IO_DECL( 8, 3 )
+   SIM_IO_DECL( 9, 0 )
+   SIM_IO_DECL( 9, 1 )
+   SIM_IO_DECL( 9, 2 )
+   SIM_IO_DECL( 9, 3 )
+   SIM_IO_DECL( 10, 0 )
+   SIM_IO_DECL( 10, 1 )
+   SIM_IO_DECL( 10, 2 )
+   SIM_IO_DECL( 10, 3 )
 #undef SIM_IO_DECL
 }  // namespace sim
